@@ -124,6 +124,34 @@ def fresh_path():
             if isinstance(c.__dict__.get("_locks"), dict):
                 c.__dict__["_locks"].clear()
             stack.extend(c.__subclasses__())
+        reset_buffers()
+
+
+_BUF_DEFAULT_CAP = {}
+
+
+def reset_buffers():
+    """Re-create the class-level buffering state of every file-buffered collection class (a crash inside signac.buffered()
+    leaves the global buffer half flushed; each path / scenario must start from the pristine state)."""
+    from synced_collections.buffers.file_buffered_collection import FileBufferedCollection, _FileBufferedContext
+    stack = list(FileBufferedCollection.__subclasses__())
+    seen = set()
+    while stack:
+        c = stack.pop()
+        if c in seen:
+            continue
+        seen.add(c)
+        stack.extend(c.__subclasses__())
+        if "_buffer" in c.__dict__:
+            if c not in _BUF_DEFAULT_CAP and "_BUFFER_CAPACITY" in c.__dict__:
+                _BUF_DEFAULT_CAP[c] = c.__dict__["_BUFFER_CAPACITY"]
+            if c in _BUF_DEFAULT_CAP:
+                c._BUFFER_CAPACITY = _BUF_DEFAULT_CAP[c]
+            c._CURRENT_BUFFER_SIZE = 0
+            c._buffer = {}
+            c._buffered_collections = {}
+            cap = c.__dict__.get("_BUFFER_CAPACITY")
+            c._buffer_context = _FileBufferedContext(c)
 
 
 def pick(table, idx):
@@ -145,3 +173,51 @@ def ci(x, lo, hi):
 
 def cb(x):
     return True if x else False
+
+
+def in_crosshair():
+    try:
+        from crosshair.statespace import optional_context_statespace
+        return optional_context_statespace() is not None
+    except Exception:
+        return False
+
+
+def decide(thunk):
+    """Evaluate a (possibly symbolic) boolean thunk and return a concrete bool. Under CrossHair the evaluation happens with tracing
+    resumed, so the solver forks on it even when the caller runs inside NoTracing (native-speed real code, symbolic decisions)."""
+    if NoTracing is not None and in_crosshair() and not is_tracing():
+        from crosshair.tracers import ResumedTracing
+        with ResumedTracing():
+            return True if thunk() else False
+    return True if thunk() else False
+
+
+class FaultPlan:
+    """Step hook for MemFS driven by symbolic ints: mode 0 none, 1 crash before step k, 2 torn write at step k (t bytes; a non-write step
+    just crashes), 3 step k fails with errno e. k may be an unbounded symbolic int: each step asks the solver whether k == idx."""
+
+    def __init__(self, mode, k, t=0, err=5, k2=None, err2=5, only=None):
+        self.mode, self.k, self.t, self.err, self.k2, self.err2 = mode, k, t, err, k2, err2
+        self.fired = []
+        self.only = only  # optional predicate(name, args): restrict which steps count (others do not advance the counter)
+        self.n = 0
+
+    def __call__(self, fs, idx, name, args):
+        if self.mode == 0:
+            return None
+        if self.only is not None and not self.only(name, args):
+            return None
+        i = self.n
+        self.n += 1
+        if decide(lambda: self.k == i):
+            self.fired.append((i, name) + tuple(args))
+            if self.mode == 1:
+                return ("crash",)
+            if self.mode == 2:
+                return ("torn", self.t)
+            return ("fail", self.err)
+        if self.k2 is not None and decide(lambda: self.k2 == i):
+            self.fired.append((i, name) + tuple(args))
+            return ("fail", self.err2)
+        return None
